@@ -13,6 +13,10 @@ def h_bmc(**kw):
     return qcommon.h_bmc(**kw)
 
 
+def h_nf(**kw):
+    return qcommon.h_nf(**kw)
+
+
 def h_twin(a1: int, b1: int, c1: int, a2: int, b2: int, c2: int, a3: int, b3: int, c3: int):
     """pull blocks; add; run -> the job reaches the worker through the hand-off path (must be reachable)."""
     jobs, qserve = qcommon.load_modules()
@@ -39,9 +43,13 @@ def build(tier: str) -> CheckSpec:
     if tier == "quick":
         cubes += qcommon.bmc_cubes(h_bmc, "full", 3, FULL, 2, 200, PROPS)
         cubes += qcommon.bmc_cubes(h_bmc, "handoff", 4, HANDOFF, 3, 200, PROPS)
+        cubes += qcommon.nf_cubes(h_nf, "nf1", 1, 2, FULL, 200, PROPS)
+        cubes += qcommon.nf_cubes(h_nf, "nf2", 2, 1, FULL, 200, PROPS)
     else:
         cubes += qcommon.bmc_cubes(h_bmc, "full", 4, FULL, 3, 2400, PROPS)
         cubes += qcommon.bmc_cubes(h_bmc, "handoff", 5, HANDOFF, 3, 2400, PROPS)
+        cubes += qcommon.nf_cubes(h_nf, "nf2", 2, 2, FULL, 2400, PROPS)
+        cubes += qcommon.nf_cubes(h_nf, "nf3", 3, 1, FULL, 2400, PROPS)
     cubes.append(Cube("twin: hand-off delivery reachable", h_twin,
                       {k: int for k in ("a1", "b1", "c1", "a2", "b2", "c2", "a3", "b3", "c3")}, {}, timeout=60, role="twin"))
     return CheckSpec(
@@ -51,6 +59,8 @@ def build(tier: str) -> CheckSpec:
         functions=[qs.jobs.workq, qs.jobs.job, qs.qserve.QPlugin, qs.qserve.db],
         bounds={"operations_from_empty_queue": {"full alphabet": 3 if tier == "quick" else 4, "hand-off alphabet": 4 if tier == "quick" else 5},
                 "alphabets": {"full": [qsim.OPNAMES[o] for o in FULL], "handoff": [qsim.OPNAMES[o] for o in HANDOFF]},
+                "normal_form_prefix": ("1 staged job + 2 symbolic operations, 2 staged jobs + 1" if tier == "quick" else "2 staged jobs + 2 symbolic operations, 3 staged jobs + 1"),
+                "normal_form_stages": qcommon.STAGES,
                 "workers": 3, "channels": 2, "channel_sets": qsim.CHANSETS,
                 "priorities / timeouts / clock deltas": "unbounded symbolic integers",
                 "finish errors": qsim.FINISH_ERRORS, "random.choice": "symbolic index"},
